@@ -32,6 +32,7 @@ import Apko.Model.Cache
 import Apko.Model.Memo
 import Apko.Proofs.C08
 import Apko.Proofs.Lemmas.CacheStep
+import Apko.Proofs.Lemmas.CacheLive
 import Apko.Generated.Cache
 
 set_option linter.unusedSimpArgs false
@@ -327,6 +328,126 @@ theorem resolves_stable (sched : List Nat) (s : State) (h : Inv s.fs.get s.procs
   | cons i rest ih =>
     simp only [runSched]
     exact ih (s.step i) (inv_step s i h) (adv_present_persist s i h k hk)
+
+/-! ### recovery: a builder alone, from any crash state -/
+
+/-- `exec` (a builder alone, to completion) is the scheduler running only that builder -/
+theorem exec_runSched (i : Nat) (prog : Prog) :
+    ∀ (fs : FS) (P : Nat → Proc) (Γ : Ctx) (obs : List Obs) (m : Nat), P i = ⟨prog, Γ, obs, m⟩ →
+    ∃ n m', (runSched (List.replicate n i) ⟨fs, P⟩).fs = (exec fs Γ obs prog).1 ∧
+      (runSched (List.replicate n i) ⟨fs, P⟩).procs i =
+        ⟨.halt (exec fs Γ obs prog).2.2.2, (exec fs Γ obs prog).2.1, (exec fs Γ obs prog).2.2.1, m'⟩ := by
+  induction prog with
+  | halt b => intro fs P Γ obs m hp; exact ⟨0, m, rfl, hp⟩
+  | ifStat nm y no ihy ihn =>
+    intro fs P Γ obs m hp
+    have hstep : (State.step ⟨fs, P⟩ i).procs i = ⟨if fs.stat nm then y else no, Γ, obs, m⟩ := by
+      simp [State.step, stepProc, hp]
+    have hfs : (State.step ⟨fs, P⟩ i).fs = fs := by simp [State.step, stepProc, hp]
+    by_cases hs : fs.stat nm = true
+    · obtain ⟨n, m', h1, h2⟩ := ihy (State.step ⟨fs, P⟩ i).fs (State.step ⟨fs, P⟩ i).procs Γ obs m
+        (by rw [hstep, if_pos hs])
+      have h1' : (runSched (List.replicate n i) (State.step ⟨fs, P⟩ i)).fs =
+          (exec (State.step ⟨fs, P⟩ i).fs Γ obs y).1 := h1
+      have h2' : (runSched (List.replicate n i) (State.step ⟨fs, P⟩ i)).procs i = _ := h2
+      refine ⟨n + 1, m', ?_, ?_⟩
+      · show (runSched (List.replicate n i) (State.step ⟨fs, P⟩ i)).fs = _
+        simp only [exec, if_pos hs]; exact h1'.trans (by rw [hfs])
+      · show (runSched (List.replicate n i) (State.step ⟨fs, P⟩ i)).procs i = _
+        simp only [exec, if_pos hs]; exact h2'.trans (by rw [hfs])
+    · obtain ⟨n, m', h1, h2⟩ := ihn (State.step ⟨fs, P⟩ i).fs (State.step ⟨fs, P⟩ i).procs Γ obs m
+        (by rw [hstep, if_neg hs])
+      have h1' : (runSched (List.replicate n i) (State.step ⟨fs, P⟩ i)).fs =
+          (exec (State.step ⟨fs, P⟩ i).fs Γ obs no).1 := h1
+      have h2' : (runSched (List.replicate n i) (State.step ⟨fs, P⟩ i)).procs i = _ := h2
+      refine ⟨n + 1, m', ?_, ?_⟩
+      · show (runSched (List.replicate n i) (State.step ⟨fs, P⟩ i)).fs = _
+        simp only [exec, if_neg hs]; exact h1'.trans (by rw [hfs])
+      · show (runSched (List.replicate n i) (State.step ⟨fs, P⟩ i)).procs i = _
+        simp only [exec, if_neg hs]; exact h2'.trans (by rw [hfs])
+  | op o next ih =>
+    intro fs P Γ obs m hp
+    cases hop : stepOp fs obs o with
+    | none =>
+      refine ⟨1, m, ?_, ?_⟩
+      · simp [List.replicate, runSched, State.step, stepProc, hp, hop, exec]
+      · simp [List.replicate, runSched, State.step, stepProc, hp, hop, exec, Proc.abort]
+    | some r =>
+      obtain ⟨fs', obs'⟩ := r
+      have hstep : (State.step ⟨fs, P⟩ i).procs i =
+          ⟨next, ctxStep Γ o, obs', if isMark o then m + 1 else m⟩ := by
+        simp [State.step, stepProc, hp, hop]
+      have hfs : (State.step ⟨fs, P⟩ i).fs = fs' := by simp [State.step, stepProc, hp, hop]
+      obtain ⟨n, m', h1, h2⟩ := ih (State.step ⟨fs, P⟩ i).fs (State.step ⟨fs, P⟩ i).procs
+        (ctxStep Γ o) obs' _ hstep
+      have h1' : (runSched (List.replicate n i) (State.step ⟨fs, P⟩ i)).fs =
+          (exec (State.step ⟨fs, P⟩ i).fs (ctxStep Γ o) obs' next).1 := h1
+      have h2' : (runSched (List.replicate n i) (State.step ⟨fs, P⟩ i)).procs i = _ := h2
+      refine ⟨n + 1, m', ?_, ?_⟩
+      · show (runSched (List.replicate n i) (State.step ⟨fs, P⟩ i)).fs = _
+        simp only [exec, hop]; exact h1'.trans (by rw [hfs])
+      · show (runSched (List.replicate n i) (State.step ⟨fs, P⟩ i)).procs i = _
+        simp only [exec, hop]; exact h2'.trans (by rw [hfs])
+
+/-- T `recovery_live_index`: from ANY good directory — in particular every state a killed build can
+leave behind (`adv_invariant`) — an online index fetch with a fresh temp name completes. -/
+theorem recovery_live_index (fs : FS) (hg : GoodFS fs.get) (t : Name) (htmp : t.isTmp = true)
+    (hfresh : fs.get t = none) (hk gk : Cid) (n : Nat) (Γ : Ctx) (obs : List Obs) :
+    (exec fs Γ obs (indexOnline t hk gk n)).2.2.2 = true := by
+  have hat := adv_ne_tmp htmp
+  suffices h : SG fs.get (indexOnline t hk gk n) from h fs Γ obs rfl
+  unfold indexOnline
+  refine SG_ifStat ?_ ?_
+  · intro hres
+    exact SG_read (good_present_resolves' hg (present_of_resolved hres)) (SG_halt _)
+  · intro _
+    refine SG_mkdir (SG_create hfresh (SG_mark _ ?_))
+    refine SG_chunks n (c := gk) (by simp [updG]) (SG_finish (c := gk) (b := false) (by simp [updG]) (SG_mark _ ?_))
+    generalize hg2 : updG (updG fs.get t (some (.file gk false))) t (some (.file gk true)) = g2
+    have eadv : ∀ k, g2 (.adv k) = fs.get (.adv k) := by intro k; rw [← hg2]; simp [updG, hat k]
+    have ekeep : ∀ x, fs.get x ≠ none → g2 x = fs.get x := by
+      intro x hx
+      have : x ≠ t := by intro e; rw [e] at hx; exact hx hfresh
+      rw [← hg2]; simp [updG, this]
+    refine SG_advertise (good_of_fresh_changes hg eadv ekeep) (by rw [← hg2]; simp [updG]) htmp
+      (nolink_of_fresh hg hfresh eadv) ?_
+    intro g3 good3 pres _ _ _
+    exact SG_mark _ (SG_read (good_present_resolves' good3 pres) (SG_halt _))
+
+/-- T `recovery_live_pkg`: from ANY good directory a package builder with four fresh temp names
+completes: on the hit path, on the hit path with a missing `.dat.tar` (regeneration), on the miss path
+(whatever subset of the three final names earlier, killed builders left behind). -/
+theorem recovery_live_pkg (fs : FS) (hg : GoodFS fs.get) (t1 t2 t3 t4 : Name) (k1 k2 k3 : Cid) (n : Nat)
+    (f1 : fs.get t1 = none) (f2 : fs.get t2 = none) (f3 : fs.get t3 = none) (f4 : fs.get t4 = none)
+    (m1 : t1.isTmp = true) (m2 : t2.isTmp = true) (m3 : t3.isTmp = true) (m4 : t4.isTmp = true)
+    (h12 : t1 ≠ t2) (h13 : t1 ≠ t3) (h23 : t2 ≠ t3) (h14 : t1 ≠ t4) (h24 : t2 ≠ t4) (h34 : t3 ≠ t4)
+    (Γ : Ctx) (obs : List Obs) :
+    (exec fs Γ obs (pkgBuilder t1 t2 t3 t4 k1 k2 k3 n)).2.2.2 = true := by
+  suffices h : SG fs.get (pkgBuilder t1 t2 t3 t4 k1 k2 k3 n) from h fs Γ obs rfl
+  have hmiss := SG_pkgMiss (k1 := k1) (k2 := k2) (k3 := k3) n hg f1 f2 f3 f4 m1 m2 m3 m4 h12 h13 h23 h14 h24 h34
+  unfold pkgBuilder pkgBuilderWith
+  refine SG_ifStat ?_ (fun _ => hmiss)
+  intro hres1
+  have p1 := present_of_resolved hres1
+  refine SG_read (good_present_resolves' hg p1) (SG_ifStat ?_ (fun _ => hmiss))
+  intro hres2
+  exact SG_pkgData n hg p1 (present_of_resolved hres2) f4 m4
+
+/-- T `recovery_correct`: …and it completes *with the uncached result*: run by the scheduler from any
+reachable state, everything the recovering builder read through an advertised name is the complete
+content that name identifies (`hit_correct` applied to the schedule "earlier history, then builder `i`
+alone"). -/
+theorem recovery_correct (fs0 : FS) (P : Nat → Proc) (hist : List Nat) (hg : GoodFS fs0.get)
+    (hP : FreshPool P) (i : Nat) (prog : Prog) (Γ : Ctx) (obs : List Obs) (m : Nat)
+    (hi : (runSched hist ⟨fs0, P⟩).procs i = ⟨prog, Γ, obs, m⟩) :
+    let s := runSched hist ⟨fs0, P⟩
+    ∀ k c b, (Name.adv k, c, b) ∈ (exec s.fs Γ obs prog).2.2.1 → c = k ∧ b = true := by
+  intro s k c b hm
+  obtain ⟨n, m', _, h2⟩ := exec_runSched i prog s.fs s.procs Γ obs m hi
+  have hinv := inv_runSched (List.replicate n i) ⟨s.fs, s.procs⟩
+    (inv_runSched hist ⟨fs0, P⟩ (inv_init fs0 P hg hP))
+  have := hinv.obsOk i (.adv k) c b k (by rw [h2]; exact hm) rfl
+  exact this
 
 /-! ### offline -/
 
